@@ -65,6 +65,7 @@ fn main() {
     ctx::install_panic_hook();
     let mut ctx = Ctx::new(&events, journal.as_deref(), seed);
     ctx.tier_thorough = tier == "thorough";
+    ctx.tiny = tiny;
     ctx.bins = bins;
     ctx.scratch = scratch;
     match workload.as_str() {
